@@ -22,19 +22,19 @@ def render(m):
         L.append(f"{m['m']} # constraints")
     if O != 'L':
         L.append(f"{len(m['q0'])} # nonzeros in lower triangle of Q^0")
-        L += [f'{i} {j} {v}' for i, j, v in m['q0']]
+        L += [f'{i} {j} {v} entry of Q^0' for i, j, v in m['q0']]
     L.append(f"{m['b0_default']} # default value for entries in b_0")
     L.append(f"{len(m['b0'])} # non default entries in b_0")
-    L += [f'{i} {v}' for i, v in m['b0']]
+    L += [f'{i} {v} entry of b_0' for i, v in m['b0']]
     L.append(f"{m['q0_const']} # value of q^0")
     if hasc and C != 'L':
         ents = [(k, i, j, v) for k, qs in enumerate(m['qs'], 1) for i, j, v in qs]
         L.append(f'{len(ents)} # nonzeros in lower triangle of Q^i')
-        L += [f'{k} {i} {j} {v}' for k, i, j, v in ents]
+        L += [f'{k} {i} {j} {v} entry of Q^{k}, trailing text' for k, i, j, v in ents]
     if hasc:
         ents = [(k, j, v) for k, bs in enumerate(m['bs'], 1) for j, v in bs]
         L.append(f'{len(ents)} # nonzeros in b^i')
-        L += [f'{k} {j} {v}' for k, j, v in ents]
+        L += [f'{k} {j} {v} # entry of b^{k}' for k, j, v in ents]
     if m.get('comment'):
         L.append('! a comment line')
         L.append('')
@@ -43,16 +43,16 @@ def render(m):
         for key in ('cl', 'cu'):
             L.append(f"{m[key + '_default']} # default")
             L.append(f"{len(m[key])} # non default")
-            L += [f'{i} {v}' for i, v in m[key]]
+            L += [f'{i} {v} non-default side' for i, v in m[key]]
     if V != 'B':
         for key in ('lb', 'ub'):
             L.append(f"{m[key + '_default']} # default bound")
             L.append(f"{len(m[key])} # non default")
-            L += [f'{i} {v}' for i, v in m[key]]
+            L += [f'{i} {v} # non-default bound' for i, v in m[key]]
     if V in 'MG':
         L.append(f"{m['vt_default']} # default variable type")
         L.append(f"{len(m['vt'])}")
-        L += [f'{i} {v}' for i, v in m['vt']]
+        L += [f'{i} {v} variable type' for i, v in m['vt']]
     L += ['0.0 # default x0', '0']
     if hasc:
         L += ['0.0 # default y0', '0']
@@ -267,6 +267,7 @@ def build(chk):
         def h(P):
             m, vals = mk_model(P, 'QGQ')
             lines = render(m)
+            original = list(lines)
             if fault == 'bad-type-letter':
                 lines[1] = 'QXQ'
             elif fault == 'bad-sense':
@@ -281,10 +282,14 @@ def build(chk):
                 lines[-2] = '5 # constraint names'
             elif fault == 'missing-value':
                 lines[-1] = '1 # the name is missing'
-            elif fault == 'index-zero':
-                lines = [('0' + ln[1:] if ln.endswith(m['ub'][0][1]) else ln) for ln in lines]
-            elif fault == 'index-too-large':
-                lines = [('9' + ln[1:] if ln.endswith(m['ub'][0][1]) else ln) for ln in lines]
+            elif fault in ('index-zero', 'index-too-large'):
+                tgt = f"{m['ub'][0][0]} {m['ub'][0][1]} # non-default bound"
+                if tgt not in lines:
+                    raise Inconclusive('fault injection: upper-bound entry line not found')
+                lines = [(('0' if fault == 'index-zero' else '9') + ln[1:] if ln == tgt else ln) for ln in lines]
+
+            if lines == original:
+                raise Inconclusive(f'fault injection {fault}: the rendered file was not changed')
 
             def witness(mdl):
                 from mirsym.models import rust_f64_display
